@@ -9,21 +9,14 @@
         FileStore.Replace  ->  Cache.ClearSnapshot(true)  ->  WAL.Remove(closed segments).
         [recover] is what Engine.Open does after a crash: keep the TSM files (with their
         tombstones), replay every WAL entry still on disk into an empty cache.
-    (C) The hole left by a torn tail (finding "torn-wal-tail-hole-loses-later-writes"):
-        Engine.Open runs WAL.Open BEFORE reloadCache.  WAL.Open re-opens the last segment
-        (os.O_RDWR, no O_APPEND), Seek(0, SeekEnd) and size := stat.Size(); only afterwards
-        CacheLoader.Load reaches the torn record and f.Truncate(r.Count())s the file to the end
-        of the last good record.  The writer's file offset stays at the OLD end, so the next
-        append lands beyond the new end of file and the gap reads as zero bytes.  On the next
-        replay WALSegmentReader.Next reads type byte 0 at the truncation point (a short read,
-        snappy.DecodedLen of an empty block or "unknown wal entry type"): the loader stops
-        there and truncates again — every entry appended after the hole is unreachable.
-        The hole exists iff the torn record left >= 1 byte; the segment is re-used for appends
-        iff its size (before truncation) is <= WAL.SegmentSize (10 MiB; rollSegment), and until
-        it is closed (CloseSegment at the start of the next snapshot: size > 0).  A restart
-        with nothing appended after the hole removes it (file size = truncation point); a
-        restart with entries after the hole re-creates it (seek to the old end, truncate).
-        [hole d = Some g]: the open segment has a hole followed by the entries [g]. *)
+    (C) Torn tail + further appends.  Engine.Open runs WAL.Open BEFORE reloadCache: the last
+        segment is re-opened for appending before CacheLoader.Load truncates its torn tail.
+        Since repo commit dc4e263207 (fix of finding "torn-wal-tail-hole-loses-later-writes")
+        WAL.Open opens it with os.O_APPEND, so every later append goes to the end of the file
+        as truncated and stays reachable for replay: a crash with a torn in-flight record
+        ([DCrashTorn]) is a plain recovery from the state before that write.  (Before the fix
+        the writer kept the pre-truncation offset and later appends sat behind a hole of zero
+        bytes; the driver's torn_crash / branch steps still exercise exactly that shape.) *)
 From Verif Require Import Base.Prelude Model.C01.
 
 (** * (A) WAL framing *)
@@ -75,20 +68,9 @@ Fixpoint replay_from (B : log) (es : list wentry) : log :=
 
 (** phase of the snapshot commit: 0 idle, 1 snapshot taken (Cache.Snapshot done),
     2 new TSM file installed (Replace done), 3 snapshot cleared (WAL segments not yet removed) *)
-Record dstate := { mem : state; closed : list wentry; opn : list wentry; phase : N;
-                   hole : option (list wentry) }.
+Record dstate := { mem : state; closed : list wentry; opn : list wentry; phase : N }.
 
-Definition dinit : dstate := {| mem := init; closed := []; opn := []; phase := 0; hole := None |}.
-
-(** the entries behind the hole of the open segment (on disk, unreachable for replay) *)
-Definition gh (d : dstate) : list wentry := match hole d with Some g => g | None => [] end.
-
-(** WALSegmentWriter.Write at the writer's file offset: behind the hole if there is one *)
-Definition wal_append (d : dstate) (e : wentry) : list wentry * option (list wentry) :=
-  match hole d with
-  | None => (opn d ++ [e], None)
-  | Some g => (opn d, Some (g ++ [e]))
-  end.
+Definition dinit : dstate := {| mem := init; closed := []; opn := []; phase := 0 |}.
 
 Inductive dop :=
 | DWrite (b : log)
@@ -97,78 +79,66 @@ Inductive dop :=
 | DCompact (i n : nat)
 | DCrash                        (* crash + reopen: [recover] *)
 | DCrashTorn.                   (* crash while the WAL record of an in-flight (unacknowledged) write
-                                   was torn after >= 1 byte, + reopen: [recover_torn].  The in-flight
-                                   write itself is not part of the history. *)
+                                   was torn after >= 1 byte, + reopen: the loader truncates the torn
+                                   tail, [recover].  The in-flight write itself is not part of the
+                                   history. *)
 
 Definition has_key (l : log) (k : key) : bool := existsb (fun e => N.eqb (fst (fst e)) k) l.
 
 Definition recover (d : dstate) : dstate :=
   {| mem := {| hot := replay_from [] (closed d ++ opn d); snap := []; snapshotting := false;
                files := files (mem d) |};
-     closed := closed d ++ opn d; opn := []; phase := 0;
-     (* the loader truncates at the hole; WAL.Open had already seeked to the old end: a hole
-        followed by entries is re-created (empty again), a hole followed by nothing is gone *)
-     hole := match hole d with Some (_ :: _) => Some [] | _ => None end |}.
-
-(** recovery from an image whose last segment ends in a torn record: as [recover], but the
-    writer is left positioned beyond the truncation point *)
-Definition recover_torn (d : dstate) : dstate :=
-  let r := recover d in
-  {| mem := mem r; closed := closed r; opn := opn r; phase := phase r; hole := Some [] |}.
+     closed := closed d ++ opn d; opn := []; phase := 0 |}.
 
 Definition with_mem (d : dstate) (s : state) : dstate :=
-  {| mem := s; closed := closed d; opn := opn d; phase := phase d; hole := hole d |}.
+  {| mem := s; closed := closed d; opn := opn d; phase := phase d |}.
 
 Definition dstep (d : dstate) (o : dop) : dstate * bool :=
   let s := mem d in
   match o with
   | DWrite b =>
-      let (o', h') := wal_append d (WWrite b) in
-      ({| mem := fst (step s (Write b)); closed := closed d; opn := o'; phase := phase d; hole := h' |}, true)
+      ({| mem := fst (step s (Write b)); closed := closed d; opn := opn d ++ [WWrite b]; phase := phase d |}, true)
   | DDelete ks lo hi =>
       (* the WAL entry lists only the keys found in the HOT store (deleteKeys) *)
       let dk := filter (has_key (hot s)) ks in
       (* WAL.DeleteRange returns without writing anything when no key is listed *)
-      let (o', h') := match dk with [] => (opn d, hole d) | _ :: _ => wal_append d (WDelete dk lo hi) end in
       ({| mem := fst (step s (Delete ks lo hi)); closed := closed d;
-          opn := o'; phase := phase d; hole := h' |}, true)
+          opn := match dk with [] => opn d | _ :: _ => opn d ++ [WDelete dk lo hi] end; phase := phase d |}, true)
   | DSnapBegin =>
-      (* WAL.CloseSegment happens before Cache.Snapshot(), whether or not the latter succeeds;
-         it ends the holed segment: later appends go to a fresh file and are replayable, the
-         entries behind the hole stay unreachable (they are dropped here) *)
+      (* WAL.CloseSegment happens before Cache.Snapshot(), whether or not the latter succeeds *)
       if N.eqb (phase d) 0 then
         let (s', ok) := step s SnapBegin in
-        ({| mem := s'; closed := closed d ++ opn d; opn := []; phase := if ok then 1 else 0; hole := None |}, ok)
-      else ({| mem := s; closed := closed d ++ opn d; opn := []; phase := phase d; hole := None |}, false)
+        ({| mem := s'; closed := closed d ++ opn d; opn := []; phase := if ok then 1 else 0 |}, ok)
+      else ({| mem := s; closed := closed d ++ opn d; opn := []; phase := phase d |}, false)
   | DCommitReplace =>
       if N.eqb (phase d) 1 then
         match snap s with
         | [] => (* empty snapshot: ClearSnapshot(true) and return; closed segments stay *)
             ({| mem := {| hot := hot s; snap := []; snapshotting := false; files := files s |};
-                closed := closed d; opn := opn d; phase := 0; hole := hole d |}, true)
+                closed := closed d; opn := opn d; phase := 0 |}, true)
         | _ :: _ =>
             ({| mem := {| hot := hot s; snap := snap s; snapshotting := true;
                           files := files s ++ [ {| fpts := snap s; ftomb := [] |} ] |};
-                closed := closed d; opn := opn d; phase := 2; hole := hole d |}, true)
+                closed := closed d; opn := opn d; phase := 2 |}, true)
         end
       else (d, false)
   | DCommitClear =>
       if N.eqb (phase d) 2 then
         ({| mem := {| hot := hot s; snap := []; snapshotting := false; files := files s |};
-            closed := closed d; opn := opn d; phase := 3; hole := hole d |}, true)
+            closed := closed d; opn := opn d; phase := 3 |}, true)
       else (d, false)
   | DCommitWalRemove =>
       if N.eqb (phase d) 3 then
-        ({| mem := s; closed := []; opn := opn d; phase := 0; hole := hole d |}, true)
+        ({| mem := s; closed := []; opn := opn d; phase := 0 |}, true)
       else (d, false)
   | DSnapFail =>
       if N.eqb (phase d) 1 then
-        ({| mem := fst (step s SnapFail); closed := closed d; opn := opn d; phase := 0; hole := hole d |}, true)
+        ({| mem := fst (step s SnapFail); closed := closed d; opn := opn d; phase := 0 |}, true)
       else (d, false)
   | DCompact i n =>
       let (s', ok) := step s (Compact i n) in (with_mem d s', ok)
   | DCrash => (recover d, true)
-  | DCrashTorn => (recover_torn d, true)
+  | DCrashTorn => (recover d, true)
   end.
 
 Definition drun (h : list dop) (d : dstate) : dstate := fold_left (fun d o => fst (dstep d o)) h d.
@@ -243,7 +213,7 @@ Fixpoint dcheck_steps (c : list dcstep) (d prev : dstate) (h hprev : list dop) (
         (same && forallb (fun res => zzs_eqb res m) imgs)
         (ok && forallb (fun res => zzs_eqb res sp) imgs)
   | DBranch torn ops res :: r =>
-      let d0 := if torn then recover_torn prev else recover d in
+      let d0 := recover (if torn then prev else d) in
       let h0 := if torn then hprev else h in
       let (d1, sm) := drun_ok ops d0 true in
       dcheck_steps r d prev h hprev
